@@ -26,13 +26,17 @@ CONSTANT SharedField   \* "none" (the code) | "params" | "consumer" | "alt" | "b
 (* opC: GET  /c/{id}  security [{key:[skc]},{tok:[stc1,stc2]}]  no body     *)
 (* opD: POST /d       security [{key:[skd]}]            body, json|text     *)
 (*      (a parameter-free, static route)                                    *)
-Ops == {"opA", "opB", "opC", "opD"}
+(* opE: POST /e       no security                       body, json|text     *)
+(*      (a parameter-free, static AND unsecured route)                      *)
+Ops == {"opA", "opB", "opC", "opD", "opE"}
 Pattern(op) == CASE op = "opA" -> "/a/{id}" [] op = "opB" -> "/b/{id}" [] op = "opC" -> "/c/{id}" [] op = "opD" -> "/d"
-HasBody(op) == op \in {"opA", "opB", "opD"}
-HasId(op) == op # "opD"
+                 [] op = "opE" -> "/e"
+HasBody(op) == op \in {"opA", "opB", "opD", "opE"}
+HasId(op) == op \notin {"opD", "opE"}
 Alts(op) == CASE op = "opA" -> << [scheme |-> "key", scopes |-> <<"ska">>] >>
               [] op = "opD" -> << [scheme |-> "key", scopes |-> <<"skd">>] >>
               [] op = "opB" -> << >>
+              [] op = "opE" -> << >>
               [] op = "opC" -> << [scheme |-> "key", scopes |-> <<"skc">>],
                                   [scheme |-> "tok", scopes |-> <<"stc1", "stc2">>] >>
 Secured(op) == Alts(op) # << >>
@@ -85,7 +89,7 @@ Status(in) ==
 Profiles == <<[ctype |-> "json", accept |-> "json", cu |-> "u1"],
               [ctype |-> "text", accept |-> "text", cu |-> "u2"],
               [ctype |-> "json", accept |-> "text", cu |-> "u1"]>>
-OpCreds == { <<"opA", "key">>, <<"opB", NoneStr>>, <<"opC", "key">>, <<"opC", "tok">>, <<"opD", "key">> }
+OpCreds == { <<"opA", "key">>, <<"opB", NoneStr>>, <<"opC", "key">>, <<"opC", "tok">>, <<"opD", "key">>, <<"opE", NoneStr>> }
 DefectKinds == {"none", "404", "405", "badcred", "nocred", "xml", "badct", "noaccept", "badparam", "handlererr"}
 
 Req(k, op, c) == [op |-> op, id |-> "i" \o ToString(k), body |-> "b" \o ToString(k),
